@@ -617,27 +617,31 @@ func ruleChannelClose(c *Ctx, rule string) {
 	// Err() table
 	if errFn := w.methodFn(a.Ch, "Err"); errFn != nil {
 		got := map[string]string{}
-		forEachReturnValue(errFn, 0, func(v ssa.Value, at ssa.Instruction) {
-			g := "default"
-			for _, f := range factsAt(at) {
-				x, op, y, ok := cmpFact(f)
-				if !ok || op != token.EQL || !isFieldLoad(x, errF) {
-					continue
+		forEachReturnValue(errFn, 0, func(rv ssa.Value, at ssa.Instruction) {
+			// each way the returned value can come about (a single-exit form merges the arms in a phi)
+			for _, vc := range valueCases(rv, 0) {
+				v := vc.Val
+				g := "default"
+				for _, f := range append(append([]EdgeFact{}, vc.Facts...), factsAt(at)...) {
+					x, op, y, ok := cmpFact(f)
+					if !ok || op != token.EQL || !isFieldLoad(x, errF) {
+						continue
+					}
+					if isNilConst(y) {
+						g = "nil"
+					} else {
+						g = desc(y)
+					}
 				}
-				if isNilConst(y) {
-					g = "nil"
-				} else {
-					g = desc(y)
+				val := desc(v)
+				if call, ok := stripConv(v).(*ssa.Call); ok && call.Call.IsInvoke() && call.Call.Method.Name() == "Err" {
+					val = "ctx.Err()"
 				}
+				if isFieldLoad(v, errF) {
+					val = "stored error"
+				}
+				got[g] = val
 			}
-			val := desc(v)
-			if call, ok := stripConv(v).(*ssa.Call); ok && call.Call.IsInvoke() && call.Call.Method.Name() == "Err" {
-				val = "ctx.Err()"
-			}
-			if isFieldLoad(v, errF) {
-				val = "stored error"
-			}
-			got[g] = val
 		})
 		want := map[string]string{"nil": "ctx.Err()", "*global:EOF": "nil", "default": "stored error"}
 		for g, wv := range want {
@@ -1637,4 +1641,142 @@ func ruleLocalFailureNotifiesPeer(c *Ctx, rule string) {
 		})
 	}
 	c.floor(rule, nCancel, 1, "cancel-stream calls on the client receive path")
+}
+
+// readsMarker: v is (the result of) a read of the client stream's terminal marker: an atomic Load of it, or a call of a
+// function of the package that performs one (e.g. loadDone()).
+func (c *Ctx) readsMarker(v ssa.Value, marker FieldRef) bool {
+	call, ok := origin(v).(*ssa.Call)
+	if !ok {
+		return false
+	}
+	isLoad := func(ci *ssa.Call) bool {
+		if !strings.HasSuffix(calleeName(ci), ").Load") || len(ci.Call.Args) == 0 {
+			return false
+		}
+		fr, _, okF := fieldOfAddr(ci.Call.Args[0])
+		return okF && fr == marker
+	}
+	if isLoad(call) {
+		return true
+	}
+	if f := helperCallee(call); f != nil {
+		reads := false
+		allInstrsLocal(f, func(in ssa.Instruction) {
+			if ci, isC := in.(*ssa.Call); isC && isLoad(ci) {
+				reads = true
+			}
+		})
+		return reads
+	}
+	return false
+}
+
+// invokeSendFailureReturns: the returns of the channel's Invoke that report a failure to send the request (after the
+// stream was created, before any receive).
+func (c *Ctx) invokeSendFailureReturns() (inv *ssa.Function, rets []*ssa.Return) {
+	w := c.W
+	a := w.Anchors()
+	inv = w.methodFn(a.Ch, "Invoke")
+	if inv == nil || a.ClientSend == nil || a.ClientRecv == nil {
+		return inv, nil
+	}
+	var sends, recvs []ssa.Instruction
+	allInstrsLocal(inv, func(in ssa.Instruction) {
+		if ci, ok := in.(*ssa.Call); ok {
+			switch staticCallee(ci) {
+			case a.ClientSend:
+				sends = append(sends, in)
+			case a.ClientRecv:
+				recvs = append(recvs, in)
+			}
+		}
+	})
+	for _, ret := range returnsOf(inv) {
+		afterSend, afterRecv := false, false
+		for _, s := range sends {
+			if dominates(s, ret) {
+				afterSend = true
+			}
+		}
+		for _, r := range recvs {
+			if dominates(r, ret) {
+				afterRecv = true
+			}
+		}
+		if afterSend && !afterRecv {
+			rets = append(rets, ret)
+		}
+	}
+	return inv, rets
+}
+
+// ruleInvokeAborts (C14.11 = C15.10): a unary call whose request could not be sent is over before Invoke returns.
+func ruleInvokeAborts(c *Ctx, rule string) {
+	c.rule(rule, "when the request of a unary call cannot be sent (SendMsg / CloseSend fail), Invoke returns only after it has cancelled the stream (cancel frame to the server, table entry removed) and received from the done signal: otherwise the RPC stays registered on both ends until the caller's context ends, and the stream's watcher goroutine writes the grpc.Header / grpc.Trailer locations after Invoke has handed them back to the application (data race)")
+	w := c.W
+	a := w.Anchors()
+	inv, rets := c.invokeSendFailureReturns()
+	if inv == nil {
+		c.fail(rule, "Invoke", "-", "not found")
+		return
+	}
+	done, okD := c.doneSignalField()
+	if !okD || !c.need(rule, "CancelStream", a.CancelStream) {
+		c.fail(rule, "done signal", "-", "cannot infer the done-signal field")
+		return
+	}
+	isCancel := func(in ssa.Instruction) bool {
+		ci, ok := in.(*ssa.Call)
+		return ok && staticCallee(ci) == a.CancelStream
+	}
+	isDoneRecv := func(in ssa.Instruction) bool {
+		if u, ok := in.(*ssa.UnOp); ok && u.Op == token.ARROW {
+			if fr, _, okF := loadedField(u.X); okF && fr == done {
+				return true
+			}
+		}
+		return false
+	}
+	for _, ret := range rets {
+		key := fmt.Sprintf("%s: send-failure return in block %d", w.Short(inv), ret.Block().Index)
+		cn := mustPrecede(ret, isCancel)
+		dr := mustPrecede(ret, isDoneRecv)
+		c.check(cn != nil && dr != nil, rule, key, w.At(ret), "preceded by cancel-stream and a receive from "+done.String(), "Invoke returns the send error without finishing the stream (cancel-stream: "+fmt.Sprint(cn != nil)+", wait for the done signal: "+fmt.Sprint(dr != nil)+"): the handler, the context watcher and both table entries stay until the caller's context ends (never, for context.Background()), and when the stream is finished later its goroutine writes the caller's grpc.Header / grpc.Trailer variables after Invoke returned — a data race with the application")
+	}
+	c.floor(rule, len(rets), 2, "send-failure returns of Invoke (SendMsg, CloseSend)")
+}
+
+// ruleInvokeReportsOutcome (C02.11): the error of such a return is the RPC's recorded outcome when there is one.
+func ruleInvokeReportsOutcome(c *Ctx, rule string) {
+	c.rule(rule, "when the request of a unary call cannot be sent because the RPC already ended (the server refused or finished it while the request was still waiting for flow-control credit), Invoke reports the RPC's recorded outcome (the status from close_stream, or the mapped context error), not the error that interrupted the sender (a bare, non-status 'context canceled')")
+	w := c.W
+	a := w.Anchors()
+	inv, rets := c.invokeSendFailureReturns()
+	if inv == nil {
+		c.fail(rule, "Invoke", "-", "not found")
+		return
+	}
+	for _, ret := range rets {
+		key := fmt.Sprintf("%s: send-failure return in block %d", w.Short(inv), ret.Block().Index)
+		t := returnTuple(ret)
+		ok := false
+		if len(t) > 0 && t[len(t)-1] != nil {
+			for _, vc := range valueCases(t[len(t)-1], 0) {
+				if c.readsMarker(vc.Val, a.CSDone) {
+					ok = true
+				}
+			}
+			// helper with several call sites: its returns
+			if leaves, _, isCall := returnLeavesOfCall(stripConv(t[len(t)-1])); isCall {
+				for _, l := range leaves {
+					if c.readsMarker(l, a.CSDone) {
+						ok = true
+					}
+				}
+			}
+		}
+		c.check(ok, rule, key, w.At(ret), "may return the stream's recorded outcome", "the returned error is "+desc(t[len(t)-1])+", never the stream's recorded outcome: a unary call to a refused stream (unknown method, shutting down) with a request larger than the flow-control window fails with a bare 'context canceled' instead of the server's status (Unimplemented / Unavailable)")
+	}
+	c.floor(rule, len(rets), 2, "send-failure returns of Invoke (SendMsg, CloseSend)")
 }
